@@ -1,6 +1,7 @@
 package kit
 
 import (
+	"encoding/asn1"
 	"crypto"
 	"crypto/ecdsa"
 	"crypto/ed25519"
@@ -108,6 +109,7 @@ type CertSpec struct {
 	OCSPSigner bool
 	SKI        []byte
 	NoAKI      bool
+	UnknownEKU bool // the extended key usage extension lists one private OID only
 }
 
 type Cert struct {
@@ -162,6 +164,10 @@ func MakeCert(sp CertSpec) *Cert {
 		}
 		if sp.OCSPSigner {
 			t.ExtKeyUsage = []stdx509.ExtKeyUsage{stdx509.ExtKeyUsageOCSPSigning}
+		}
+		if sp.UnknownEKU {
+			t.ExtKeyUsage = nil
+			t.UnknownExtKeyUsage = []asn1.ObjectIdentifier{{1, 3, 6, 1, 4, 1, 99999, 7}}
 		}
 	}
 	parent := t
